@@ -1,13 +1,141 @@
-"""C15 -- placeholder until the check is built"""
+"""C15 -- spline transmissivity is the minimum plus the integral of conductivity"""
+
+import numpy as np
+
+from .. import core, gen_params, oracle_hydraulics as oh
+
 PROPERTY = 'C15'
 LEVEL = 'exploration'
-SHARDS = {'quick': 1, 'thorough': 1}
-RULE = 'not built yet'
+SHARDS = {'quick': 4, 'thorough': 16}
+RULE = (
+    'G-params: 2-7 strictly increasing knots (spacing 1-1000 mm), conductivities over 11 decades (monotone, arbitrary, '
+    'and narrow-spike sets: one knot 4-11 decades above its neighbours), T_min 1e-3..1e2, built by the real '
+    'create_transmissivity_function; levels below / at the lowest knot, between knots, one ulp and 1e-9 beside knots, '
+    'at every knot including the highest; Python floats, numpy scalars, lists and arrays.  Oracle: closed form '
+    'T_min + sum K_j expm1(s d)/s per log-linear segment (1e-9 relative); T = T_min at and below the lowest knot; '
+    'non-decreasing over the sorted levels; continuity across knots; array == scalar results.  Non-trivial: level '
+    'above >= 2 knots with a conductivity ratio >= 100 between neighbours; distinct by (parameter digest, level).'
+)
+ASSUMPTIONS = ['levels above the highest knot are outside the property (the code refuses them with NotImplementedError)']
+SIZES = {'quick': dict(sets=300, levels=24), 'thorough': dict(sets=12000, levels=40)}
+REQUIRED = {
+    tier: {
+        'values-vs-closed-form': 4000,
+        'levels-at-or-below-lowest-knot': 300,
+        'levels-at-a-knot': 500,
+        'levels-beside-a-knot': 500,
+        'monotonicity-pairs': 3000,
+        'array-vs-scalar': 200,
+        'narrow-spike-sets': 40,
+    }
+    for tier in ('quick', 'thorough')
+}
+MIN_NONTRIVIAL = {'quick': 500, 'thorough': 20000}
+
+
+def check_set(ctx, rng, params, nlevels):
+    import spowtd.transmissivity as t_mod
+
+    rec = ctx.rec
+    knots = [float(v) for v in params['zeta_knots_mm']]
+    K = [float(v) for v in params['K_knots_km_d']]
+    tmin = float(params['minimum_transmissivity_m2_d'])
+    case = {'kind': 'spline_T', 'params': params}
+    try:
+        T = t_mod.create_transmissivity_function(dict(params))
+    except Exception as exc:  # pylint: disable=broad-except
+        desc = core.describe_exception(exc)
+        if desc['origin'] == 'harness':
+            rec.inconclusive_because('harness exception: {}'.format(desc))
+        else:
+            rec.violation('construction-raises:' + desc['type'], {'exception': desc}, case, 'spline_T')
+        return
+    ratios = [max(a / b, b / a) for a, b in zip(K[:-1], K[1:])]
+    if len(K) >= 3 and any(K[i] > 1e3 * max(K[i - 1], K[i + 1]) for i in range(1, len(K) - 1)):
+        rec.hit('narrow-spike-sets')
+    lo, hi = knots[0], knots[-1]
+    levels = []
+    for _ in range(nlevels):
+        r = rng.random()
+        if r < 0.1:
+            levels.append(lo - rng.uniform(0, 500))
+        elif r < 0.3:
+            levels.append(rng.choice(knots))
+        elif r < 0.45:
+            k = rng.choice(knots)
+            levels.append(min(hi, float(np.nextafter(k, rng.choice([-1e9, 1e9]))) if rng.random() < 0.5 else min(hi, k + rng.choice([-1, 1]) * 1e-9 * max(1.0, abs(k)))))
+        else:
+            levels.append(rng.uniform(lo, hi))
+    levels.append(hi)
+    levels.append(lo)
+    levels = sorted(levels)
+    values = []
+    for z in levels:
+        rec.case()
+        zz = z if rng.random() < 0.7 else np.float64(z)
+        try:
+            v = float(T(zz))
+        except Exception as exc:  # pylint: disable=broad-except
+            desc = core.describe_exception(exc)
+            if desc['origin'] == 'harness':
+                rec.inconclusive_because('harness exception: {}'.format(desc))
+                return
+            rec.violation('call-raises:' + desc['type'], {'exception': desc, 'level': z}, dict(case, level=z), 'spline_T')
+            return
+        ref = oh.transmissivity_closed_form(z, knots, K, tmin)
+        w = {'level': z, 'T': v, 'closed_form': ref, 'knots': knots, 'K': K, 'T_min': tmin}
+        if z <= lo:
+            rec.hit('levels-at-or-below-lowest-knot')
+            if v != tmin:
+                rec.violation('not-the-minimum-at-or-below-the-lowest-knot', w, dict(case, level=z), 'spline_T')
+                return
+        if z in knots:
+            rec.hit('levels-at-a-knot')
+        elif any(abs(z - k) <= 2e-9 * max(1.0, abs(k)) for k in knots):
+            rec.hit('levels-beside-a-knot')
+        if abs(v - ref) > 1e-9 * abs(ref):
+            rec.violation('differs-from-minimum-plus-integral-of-conductivity', dict(w, relative_error=abs(v - ref) / abs(ref)), dict(case, level=z), 'spline_T')
+            return
+        rec.note_max('max relative error vs closed form', abs(v - ref) / abs(ref))
+        rec.hit('values-vs-closed-form')
+        values.append(v)
+        above = sum(1 for k in knots if z > k)
+        if above >= 2 and any(r >= 100 for r in ratios[:above]):
+            rec.mark_nontrivial(core.digest((knots, K, z)))
+    for (z0, v0), (z1, v1) in zip(zip(levels, values), zip(levels[1:], values[1:])):
+        rec.hit('monotonicity-pairs')
+        if v1 < v0 * (1 - 1e-12):
+            rec.violation('decreases-as-the-water-level-rises', {'levels': [z0, z1], 'T': [v0, v1], 'knots': knots, 'K': K}, dict(case, level=z1), 'spline_T')
+            return
+    # continuity across interior knots
+    for k in knots[1:-1]:
+        d = 1e-7 * max(1.0, abs(k))
+        a, b = float(T(k - d)), float(T(k + d))
+        kk = max(oh.transmissivity_closed_form(k, knots, K, tmin), tmin)
+        slope = max(K)
+        if abs(b - a) > 2 * d * slope * 1.01 + 1e-9 * kk:
+            rec.violation('jump-across-a-knot', {'knot': k, 'below': a, 'above': b}, dict(case, level=k), 'spline_T')
+            return
+        rec.hit('continuity-checked')
+    # array == scalar
+    arr = np.array(levels)
+    for form in (arr, list(levels)):
+        got = np.asarray(T(form), dtype=float)
+        if got.shape != (len(levels),) or not np.array_equal(got, np.array(values)):
+            rec.violation('array-and-scalar-results-differ', {'levels': levels[:6], 'array': got.tolist()[:6], 'scalar': values[:6]}, case, 'spline_T')
+            return
+    rec.hit('array-vs-scalar')
+    if len(rec.samples) < 3:
+        rec.sample({'knots_mm': knots, 'K_km_d': K, 'T_min': tmin, 'levels': levels[:5], 'T': values[:5]})
 
 
 def run(ctx):
-    ctx.rec.inconclusive_because('check not built yet')
+    s = SIZES[ctx.tier]
+    rng = ctx.rng('T')
+    for _ in range(ctx.share(s['sets'])):
+        check_set(ctx, rng, gen_params.spline_T(rng), s['levels'])
 
 
 def replay(ctx, case, module=None):
-    ctx.rec.inconclusive_because('check not built yet')
+    rng = core.make_rng('replay')
+    check_set(ctx, rng, case['params'], 60)
